@@ -148,6 +148,10 @@ def cli_defaults(ctx):
         (["t", "mod", "tst"], "module", ["mod"]), (["t", "mod", "tst"], "test", ["tst"]),
         (["t", "-m", "a", "mod"], "module", ["a", "mod"]),
         (["t", ".", "tst"], "module", ["."]),
+        # the empty pattern is a pattern (it matches every name): given as a positional filter it neither vanishes nor
+        # takes the other positional filter with it
+        (["t", "", "tst"], "test", ["tst"]), (["t", "", "tst"], "module", [""]), (["t", "mod", ""], "test", [""]),
+        (["t", "-m", "a", "", "tst"], "module", ["a", ""]), (["t", "-m", "a", "", "tst"], "test", ["tst"]),
     ]:
         with contextlib.redirect_stdout(io.StringIO()):
             o = get_options(list(args), [])
